@@ -59,6 +59,7 @@ type c07Snap struct {
 	rep     []string
 	hasFo   bool
 	wit     []string
+	pisr    []string // the PERSISTED in-sync list (Partition.Isr): what a partition rebuilt from the protobuf (snapshot restore, pause/resume) - and so the next election there - draws from; not part of String()
 }
 
 func c07Join(l []string) string {
@@ -183,6 +184,10 @@ func (im *c07Impl) dumpReal(stream string) c07Snap {
 	sort.Strings(sn.isr)
 	sn.rep = p.GetReplicas()
 	sort.Strings(sn.rep)
+	p.mu.RLock()
+	sn.pisr = append([]string(nil), p.Partition.Isr...)
+	p.mu.RUnlock()
+	sort.Strings(sn.pisr)
 	im.s.metadata.mu.Lock()
 	fo := im.s.metadata.partitionFailovers[p]
 	im.s.metadata.mu.Unlock()
@@ -428,6 +433,12 @@ func (o *c07Oracle) observe(p string, sn c07Snap, when string) {
 	}
 	if !c07In(sn.isr, sn.leader) {
 		o.bad("leader-not-in-isr", "%s: the leader %s of %s is not in the ISR (%s)", when, sn.leader, p, sn)
+	}
+	// "a new leader is only ever chosen from the current in-sync set": the set an election draws from on a
+	// controller that rebuilt the partition from its protobuf (snapshot restore, pause/resume) is the persisted list
+	if c07Join(sn.pisr) != c07Join(sn.isr) {
+		o.bad("isr-persisted-differs", "%s: the persisted in-sync list of %s is {%s} while the in-sync set is {%s}: a controller restored from a snapshot counts reports of, and can elect, a replica outside the current in-sync set (%s)",
+			when, p, c07Join(sn.pisr), c07Join(sn.isr), sn)
 	}
 }
 
